@@ -7,6 +7,7 @@ import AikenVerif.Drivers.Schema
 import AikenVerif.Drivers.Budget
 import AikenVerif.Drivers.Prec
 import AikenVerif.Drivers.Text
+import AikenVerif.Drivers.Match
 /-!
 Native driver: line protocol.  Each request line is
   `<sub-command> <case-id> <fields…>`
@@ -36,6 +37,7 @@ def dispatch (st : DriverState) (sub : String) (args : List String) : DriverStat
   | "text-print" => (st, Drivers.Text.handlePrint args)
   | "text-parse" => (st, Drivers.Text.handleParse args)
   | "text-lex" => (st, Drivers.Text.handleLex args)
+  | "match" => (st, Drivers.Match.handle args)
   | _ => (st, "unknown-subcommand")
 
 partial def loop (h : IO.FS.Stream) (out : IO.FS.Stream) (st : DriverState) : IO Unit := do
